@@ -71,6 +71,15 @@ pub fn gen_plan(prop: &str, seed: u64, run: u64, tier: Tier) -> Plan {
         b.now_ns += b.rng.below(1_000_000_000_000) as i128;
         let now = Ns(b.now_ns);
         let key = if purpose == Purp::Local { fk.local } else { fk.secret };
+        match b.rng.below(10) {
+            0 => {
+                b.push(Step::CloneKey { node: issuer, slot: key });
+            }
+            1 => {
+                b.push(Step::Restart { node: issuer });
+            }
+            _ => {}
+        }
         b.push(Step::Seal { tok, node: issuer, key, purpose, claims, footer, aad, nonce: None, alias, rng, now_ns: now });
         // crash/restart or clone between issue and verify, sometimes
         match b.rng.below(12) {
